@@ -251,8 +251,21 @@ func (e *Engine) doAppend(st *State, instr ssa.Instruction, s, t *Val) *Val {
 	st.declare(nr, "Int")
 	st.assume(and(sx(">", nr, "0"), not(sx("select", al, nr))))
 	e.markPrivate(st, nr)
-	// appended values stored into a non-private slice escape
-	e.escapeStore(st, &Addr{Kind: aElem, Ref: sreg}, t.T)
+	e.notePrivType(nr, s.Ty)
+	// appended element values are stored into s's region: if that region is
+	// not private, private references among them escape; which private
+	// references an element can be is decided by its type
+	if len(st.priv) > 0 && !e.isPrivateRef(st, sreg) {
+		for r := range st.priv {
+			if rt, ok := e.privTypes[r]; !ok || canHold(et, rt, 0) {
+				if traceInline {
+					fmt.Printf("PRIVACY DROPPED: append of %v elements into a non-private slice\n", et)
+				}
+				st.priv = nil
+				break
+			}
+		}
+	}
 	e.heapSet(st, "$alloc", "(Array Int Bool)", ite(fits, al, sx("store", al, nr, "true")))
 	ncap := e.freshName("append.cap")
 	st.declare(ncap, "Int")
